@@ -111,6 +111,13 @@ def run(ctx):
             for eb in (True, False):
                 cases.append({"fn": "gen", "name": name, "args": G.enc_args(a), "ensure_bounded": eb, "return_scale": eb and name == "invert",
                               "chebyshev_basis": rng.random() < 0.5, "return_coef": False, "timeout": 300})
+        # integer-valued tau / kappa handed over as numpy scalars (an element of np.arange, of an integer array of evolution times)
+        for name, a, ty in (("sin", {"tau": 12.0, "epsilon": 1e-3}, {"tau": "int64"}), ("sin", {"tau": 37.0, "epsilon": 0.3}, {"tau": "int32"}),
+                            ("cos", {"tau": 9.0, "epsilon": 1e-2}, {"tau": "int64"}), ("cos", {"tau": 20.0, "epsilon": 1e-4}, {"tau": "uint8"}),
+                            ("sin", {"tau": 5.0, "epsilon": 1e-6}, {"tau": "float64"}), ("invert", {"kappa": 3.0, "epsilon": 0.1}, {"kappa": "int64"})):
+            for cheb in ((True, False) if name != "invert" else (True,)):       # 1/x is compared in the Chebyshev basis only (degree 29 here; monomial form above degree 24 is outside the quantifier)
+                cases.append({"fn": "gen", "name": name, "args": G.enc_args(a), "ensure_bounded": rng.random() < 0.5, "return_scale": False,
+                              "chebyshev_basis": cheb, "arg_types": ty, "timeout": 300})
         for name in G.ERF:
             for rep in range(2 if quick else 10):
                 deg = G.right_parity_degree(rng, name, 2, 60 if rep else 12)
